@@ -178,6 +178,70 @@ func runC13(c *Ctx) {
 		rep.Count("derived_key_all_zero_cases", int64(len(hits)))
 	}
 
+	// one-sided exchanges with a *constructed* peer ephemeral point (no scalar known, none needed): x values at the edges
+	// of the x-bar computation — exactly 16 significant bytes with bit 127 set / clear, 15 and 17 bytes, 1 byte, the
+	// top of the field — each completed to a curve point by solving for y. Both roles, against the reference.
+	{
+		solve := func(x *big.Int) *big.Int {
+			rhs := new(big.Int).Exp(x, big.NewInt(3), ref.P)
+			rhs.Add(rhs, new(big.Int).Mul(ref.A, x))
+			rhs.Add(rhs, ref.B)
+			rhs.Mod(rhs, ref.P)
+			return new(big.Int).ModSqrt(rhs, ref.P)
+		}
+		pow := func(k uint) *big.Int { return new(big.Int).Lsh(big.NewInt(1), k) }
+		type xc struct {
+			cls  string
+			from *big.Int
+		}
+		xcs := []xc{{"x=2^127", pow(127)}, {"x=2^128-1-ish", new(big.Int).Sub(pow(128), big.NewInt(1))}, {"x=2^127-1-ish", new(big.Int).Sub(pow(127), big.NewInt(1))},
+			{"x=2^120", pow(120)}, {"x=2^119", pow(119)}, {"x=2^128", pow(128)}, {"x=2^135", pow(135)}, {"x=1-ish", big.NewInt(1)}, {"x=255-ish", big.NewInt(255)},
+			{"x=p-1-ish", new(big.Int).Sub(ref.P, big.NewInt(1))}, {"x=2^255", pow(255)}, {"x=2^248-1-ish", new(big.Int).Sub(pow(248), big.NewInt(1))}}
+		a, b, ra := keys[0], keys[1], keys[len(keys)-1]
+		for _, c0 := range xcs {
+			x := new(big.Int).Set(c0.from)
+			var y *big.Int
+			for tries := 0; tries < 64 && y == nil; tries++ {
+				if y = solve(x); y == nil {
+					x.Add(x, big.NewInt(1))
+				}
+			}
+			if y == nil {
+				continue
+			}
+			for _, yy := range []*big.Int{y, new(big.Int).Sub(ref.P, y)} {
+				eph := ref.Point{X: x, Y: yy}
+				ephPub := &sm2.PublicKey{Curve: sm2.P256Sm2(), X: new(big.Int).Set(x), Y: new(big.Int).Set(yy)}
+				for _, asA := range []bool{true, false} {
+					cls := fmt.Sprintf("kx/one-sided/peer-ephemeral-%s/initiator=%v", c0.cls, asA)
+					w := map[string]interface{}{"class": cls, "peer_ephemeral_x": x.Text(16), "peer_ephemeral_y": yy.Text(16), "d_self": a.d.Text(16), "r_self": ra.d.Text(16)}
+					want, err := ref.KeyExchange(32, []byte("alice"), []byte("bob"), a.d, P(a), ra.d, P(ra), P(b), eph, asA)
+					if err != nil {
+						continue
+					}
+					var k, s1, s2 []byte
+					var e error
+					if pi := mon.Guard(func() {
+						if asA {
+							k, s1, s2, e = sm2.KeyExchangeA(32, []byte("alice"), []byte("bob"), a.priv(), b.pub(), ra.priv(), ephPub)
+						} else {
+							k, s1, s2, e = sm2.KeyExchangeB(32, []byte("alice"), []byte("bob"), a.priv(), b.pub(), ra.priv(), ephPub)
+						}
+					}); pi != nil {
+						rep.Violation("C13/KeyExchange/panic/"+pi.Func, pi.Value, w)
+						continue
+					}
+					if e != nil {
+						rep.Violation("C13/KeyExchange/error-on-valid-input/one-sided/"+c0.cls, e.Error(), w)
+					} else if !bytes.Equal(k, want.K) || !bytes.Equal(s1, want.S1) || !bytes.Equal(s2, want.S2) {
+						rep.Violation("C13/KeyExchange/not-GMT0003.3/one-sided/peer-ephemeral-"+c0.cls, fmt.Sprintf("K %x want %x", k, want.K), w)
+					}
+					rep.Eval(cls)
+				}
+			}
+		}
+	}
+
 	// hostile peer ephemerals: must yield an error, not a key
 	{
 		r := c.Rng("hostile")
